@@ -2,7 +2,7 @@
 import math
 import numpy as np, sympy
 from hlib import *
-from orquestra.quantum.circuits import (Circuit, X, H, CNOT, CZ, SWAP, RX, RY, RZ, U3, T, S, PHASE)
+from orquestra.quantum.circuits import (Circuit, X, Y, Z, H, CNOT, CZ, SWAP, RX, RY, RZ, U3, T, S, PHASE)
 from orquestra.quantum.circuits._gates import ControlledGate, MatrixFactoryGate, GateOperation
 from orquestra.quantum.decompositions import U3GateToRotation, decompose_orquestra_circuit
 from orquestra.quantum.decompositions._decomposition import DecompositionRule, decompose_operations
@@ -11,11 +11,14 @@ Hn = Harness("C18", ["OQ.Base.CaseEq", "OQ.Circ.U3Rule", "OQ.Circ.U3RuleCases"],
              "random circuits (width 1-5, 0-8 operations) mixing U3, controlled U3 (1-2 controls, arbitrary qubit tuples), "
              "RZ/RY plain and controlled, other built-in gates, dagger/power of U3 (not matched by the rule); rule lists: empty, "
              "the U3 rule once/twice/three times, and harness-defined table rules (SWAP->3 CNOT, CNOT->H CZ H) in both orders; "
+             "about a third of the circuits contain a collision group: two or three operations with the same wrapper kind "
+             "(1-2 controls, or the exponential), the same parameters and exactly the same qubit tuple but DIFFERENT wrapped gates "
+             "(c-X / c-Z, c-RY(a) / c-RZ(a), exp X / exp Z, ...), optionally with a genuine repetition of the first as control; "
              "compared: decomposed operation list and width; oracle: unitary equal up to one global phase, width kept, "
              "unmatched operations kept in order; non-trivial = at least one operation matched by some rule",
              preamble="Require Import Coq.QArith.QArith.\n")
 
-FIXED_IDS = {"X": 1, "H": 2, "CNOT": 3, "CZ": 4, "SWAP": 5, "T": 6, "S": 7}
+FIXED_IDS = {"X": 1, "H": 2, "CNOT": 3, "CZ": 4, "SWAP": 5, "T": 6, "S": 7, "Y": 8, "Z": 9}
 
 class SwapRule(DecompositionRule):
     def predicate(self, op): return op.gate.name == "SWAP"
@@ -45,8 +48,9 @@ def build_gate(spec):
     elif k == "PHASE": g = PHASE(*ps)
     elif k == "U3dag": g = U3(*ps).dagger
     elif k == "U3pow": g = U3(*ps).power(2)
-    else: g = dict(X=X, H=H, CNOT=CNOT, CZ=CZ, SWAP=SWAP, T=T, S=S)[k]
-    if spec.get("ctrl", 0): g = g.controlled(spec["ctrl"])
+    else: g = dict(X=X, Y=Y, Z=Z, H=H, CNOT=CNOT, CZ=CZ, SWAP=SWAP, T=T, S=S)[k]
+    if spec.get("exp"): g = g.exp            # name "Exponential" whatever the wrapped gate is
+    if spec.get("ctrl", 0): g = g.controlled(spec["ctrl"])      # name "Control" whatever the wrapped gate is
     return g
 
 class Table:
@@ -101,8 +105,27 @@ def gen(rng, tier):
             spec["ctrl"] = ctrl
             spec["qs"] = rng.sample(range(w), base + ctrl)
             ops.append(spec)
-        rl = rng.choice([[], ["u3"], ["u3", "u3"], ["u3", "u3", "u3"], ["swap", "cnot"], ["cnot", "swap"], ["u3", "swap"], ["cnot", "u3", "swap"]])
-        yield dict(width=w + rng.choice([0, 0, 1]), ops=ops, rules=rl)
+        collision = False
+        if rng.random() < 0.35:
+            # operations that differ only in the gate below the wrapper: same wrapper kind, params, qubit tuple
+            wrapper = rng.choice(["c1", "c1", "c2", "exp"])
+            if rng.random() < 0.5:
+                kinds, ps = rng.sample(["X", "Y", "Z", "H", "T", "S"], rng.choice([2, 2, 3])), None
+            else:
+                kinds, ps = rng.sample(["RZ", "RY", "RX", "PHASE"], rng.choice([2, 2, 3])), [dy()]
+            ctrl = dict(c1=1, c2=2, exp=0)[wrapper]
+            w = max(w, 1 + ctrl)
+            qs = rng.sample(range(w), 1 + ctrl)
+            group = [dict(kind=k, ctrl=ctrl, qs=list(qs), **({"ps": list(ps)} if ps else {}), **({"exp": True} if wrapper == "exp" else {}))
+                     for k in kinds]
+            if rng.random() < 0.4:
+                group.append(dict(group[0]))              # a genuine repetition (control: must stay what it is)
+                rng.shuffle(group)
+            for spec in group:
+                ops.insert(rng.randint(0, len(ops)), spec)
+            collision = True
+        rl = rng.choice([[], [], ["u3"], ["u3", "u3"], ["u3", "u3", "u3"], ["swap", "cnot"], ["cnot", "swap"], ["u3", "swap"], ["cnot", "u3", "swap"]])
+        yield dict(width=w + rng.choice([0, 0, 1]), ops=ops, rules=rl, collision=collision)
 
 def run_case(inp):
     ops = [build_gate(s)(*s["qs"]) for s in inp["ops"]]
@@ -123,7 +146,8 @@ def run_case(inp):
     it = iter(out.operations)
     if not all(any(o == x for x in it) for o in kept_in): msgs.append("an unmatched operation was dropped or reordered")
     sig = None
-    if c.n_qubits <= 4:
+    has_exp = any(s.get("exp") for s in inp["ops"])       # sympy's Matrix.exp() can hang: no unitary for these
+    if c.n_qubits <= 4 and not has_exp:
         st2, res = outcome(lambda: same_up_to_phase(unitary(out), unitary(c)), timeout=30)
         if st2 == "ok" and not res:
             cu3 = [o for o in c.operations if isinstance(o.gate, ControlledGate) and o.gate.wrapped_gate.name == "U3"
@@ -134,6 +158,7 @@ def run_case(inp):
         elif st2 != "ok":
             pass
     kind = "rules:" + "+".join(inp["rules"]) if inp["rules"] else "rules:none"
+    if inp.get("collision"): kind += "/collision"
     return dict(chk=chk, oracle_ok=not msgs, oracle_msg="; ".join(msgs), sig=sig if msgs == ["decomposed circuit differs from the original by more than a global phase"] else None,
                 kind=kind, nontrivial=matched)
 
